@@ -215,6 +215,10 @@ def adversarial_defs():
         S.Union('AdvUS', [(1, 'u8', 'a'), (2, 'AdvPt', 'pt'), (3, 'AdvU', 'inner')]),
         S.Struct('AdvHold', [M('k', 'u8'), M('u', 'AdvUS')]),
         S.Struct('AdvUArr', [M('us', 'AdvUS', S.DYNAMIC), M('hs', 'AdvHold', S.LIMITED, 3), M('t', 'u8')]),
+        # a scalar array and a struct array counted by the same field (Python only); elements made of fixed bytes only
+        S.Struct('AdvTrack', [M('n', 'u8'), M('ids', 'u16', S.EXT, sizer='n'), M('points', 'AdvPt', S.EXT, sizer='n')]),
+        S.Struct('AdvMac', [M('addr', 'byte', S.FIXED, 6)]),
+        S.Struct('AdvHosts', [M('macs', 'AdvMac', S.DYNAMIC), M('lim', 'AdvMac', S.LIMITED, 3), M('t', 'u8')]),
         S.Struct('AdvDeep', [M('b', 'byte', S.DYNAMIC), M('el', 'AdvElem'), M('oe', 'AdvE', S.OPTIONAL),
                              M('ea', 'AdvE', S.FIXED, 2), M('z', 'u8')]),
     ]
